@@ -107,6 +107,7 @@ const (
 	symCSRMalformed
 	symCSRExtra
 	symCSRMissing
+	symCSREquivalent
 	symPanic
 	numSymptoms
 )
@@ -128,6 +129,7 @@ var symptomName = [numSymptoms]string{
 	symCSRMalformed:          "codespacerange:malformed-range",
 	symCSRExtra:              "codespacerange:reports-codes-not-in-the-code-space",
 	symCSRMissing:            "codespacerange:omits-codes-of-the-code-space",
+	symCSREquivalent:         "codespacerange:Equivalent-disagrees-with-the-codes-described",
 	symPanic:                 "panic",
 }
 
@@ -240,7 +242,7 @@ func describe(rs codespace.Set, f *failure) string {
 		return fmt.Sprintf("NewCodec(%v) fails (%s) although no code is a prefix of another", rs, f.detail)
 	case symAcceptsPrefixConflict:
 		return fmt.Sprintf("NewCodec(%v) succeeds although a code of one range is a prefix of a code of another", rs)
-	case symPanic, symCSRMalformed:
+	case symPanic, symCSRMalformed, symCSREquivalent:
 		return fmt.Sprintf("code space %v: %s", rs, f.detail)
 	case symCSRExtra, symCSRMissing:
 		return fmt.Sprintf("code space %v: CodeSpaceRange() = %s; code <%X> is %s", rs, f.detail, in,
@@ -471,6 +473,15 @@ func (e *evaluator) run() {
 	if !ok {
 		e.fail(failure{sym: symCSRMalformed, detail: fmt.Sprintf("CodeSpaceRange() = %v contains a malformed range", rep)}, false)
 		return
+	}
+	// the library's own decision procedure for "describes the same codes"
+	// must give the answer of the reference comparison, in both directions
+	_, _, differ0 := codespace.Diff(rs, got)
+	orig := toLib(rs)
+	if a, b := orig.Equivalent(rep), rep.Equivalent(orig); a == differ0 || b == differ0 {
+		e.t.evals++
+		e.fail(failure{sym: symCSREquivalent, detail: fmt.Sprintf("CodeSpaceRange() = %s; given.Equivalent(reported) = %v, reported.Equivalent(given) = %v, but the two sets describe %s codes",
+			got.String(), a, b, map[bool]string{true: "different", false: "the same"}[differ0])}, false)
 	}
 	if code, inOrig, differ := codespace.Diff(rs, got); differ {
 		f := failure{detail: got.String()}
@@ -724,7 +735,7 @@ func Run(tier string) int {
 	}
 	r := ev.New("C12", tier, "exploration", budget)
 	ck := newChecker(r)
-	r.Rule("a case is one set of code space ranges; for every set the reference model decides validity (NewCodec must agree) and, for valid sets, one execution = one input string (every string of length <= 4 over the cell edges and a cell-interior value of the partition induced by all range bounds, which includes all truncated codes, plus the empty string) judged on Decode, AppendCode(Decode), Decode(AppendCode) and once per set CodeSpaceRange(); distinct = distinct valid sets of at least two ranges (order-independent identity); spaces: named sets, all sets of <=3 ranges over small bound alphabets (S1..S4), and every non-empty subset of every ladder (S5: up to 15 ranges with pairwise different first bytes and pairwise different continuations, so that the lookup tree has up to ~100 nodes)")
+	r.Rule("a case is one set of code space ranges; for every set the reference model decides validity (NewCodec must agree) and, for valid sets, one execution = one input string (every string of length <= 4 over the cell edges and a cell-interior value of the partition induced by all range bounds, which includes all truncated codes, plus the empty string) judged on Decode, AppendCode(Decode), Decode(AppendCode) and once per set CodeSpaceRange() (its codes compared with the reference set, and CodeSpaceRange.Equivalent asked in both directions, which must give the same verdict); distinct = distinct valid sets of at least two ranges (order-independent identity); spaces: named sets, all sets of <=3 ranges over small bound alphabets (S1..S4), and every non-empty subset of every ladder (S5: up to 15 ranges with pairwise different first bytes and pairwise different continuations, so that the lookup tree has up to ~100 nodes)")
 	r.Assume(
 		"reference model ref/codespace written from ISO 32000-2 9.7.6.2/9.7.6.3, cross-checked at start-up against a literal list-of-codes formulation on all <=3-range sets of a tiny alphabet",
 		"the codec's behaviour on a byte depends only on comparisons with range bounds, so the cell edges plus one interior value per cell represent all 256 values (checked for the reference model at start-up, assumed for the library)",
